@@ -387,7 +387,93 @@ def enum_ace_numbers(tier, shard, nshards):
                     idx += 1
 
 
+def judge_proto_switch(case) -> Verdict:
+    """Port.protocol = other: the number stays, the rendered token belongs to the other protocol's table."""
+    from cisco_acl import Port
+    from cisco_acl.port_name import PortName
+
+    v = Verdict()
+    platform, proto, name, version = case["platform"], case["proto"], case["name"], case.get("version", "0")
+    other = "udp" if proto == "tcp" else "tcp"
+    nr = PortName(proto, platform, version).names()[name]
+    v.nt()
+    v.label(f"{proto}->{other}")
+    for port_nr in (False, True):
+        port = Port(f"eq {name}", platform=platform, protocol=proto, version=version, port_nr=port_nr)
+        _ = port.line
+        port.protocol = other
+        table = PortName(other, platform, version).names()
+        tok = port.line.split()[-1] if port.line else ""
+        if port.ports != [nr]:
+            v.fail("protoswitch:number-changed", {"case": case, "ports": port.ports[:4], "port_nr": port_nr})
+        elif not tok.isdigit() and table.get(tok) != nr:
+            v.fail("protoswitch:renders-name-of-other-protocol", {"case": case, "line": port.line})
+        elif Port(port.line, platform=platform, protocol=other, version=version).ports != [nr]:
+            v.fail("protoswitch:rendered-text-rereads-differently", {"case": case, "line": port.line})
+    return v
+
+
+def enum_proto_switch(tier, shard, nshards):
+    from cisco_acl.port_name import PortName
+
+    idx = 0
+    for platform in PLATFORMS:
+        for version in ("0", "15.2(02)SY"):
+            for proto in PROTOS:
+                for name in sorted(PortName(proto, platform, version).names()):
+                    if idx % nshards == shard:
+                        yield {"platform": platform, "version": version, "proto": proto, "name": name}
+                    idx += 1
+
+
+def judge_tables_are_copies(case) -> Verdict:
+    """Editing the dict returned by names() / ports() must not change what the library accepts."""
+    from cisco_acl import Port
+    from cisco_acl.port_name import PortName, all_known_names
+
+    v = Verdict()
+    v.nt()
+    v.label("returned-tables")
+    pn = PortName(case["proto"], case["platform"], case["version"])
+    before = dict(pn.names())
+    known_before = list(all_known_names())
+    got = pn.names()
+    first = sorted(got)[0]
+    got["zz-private-alias"] = 8080
+    got.pop(first)
+    rev = pn.ports()
+    rev[8080] = "zz-private-alias"
+    after = PortName(case["proto"], case["platform"], case["version"]).names()
+    if after != before or list(all_known_names()) != known_before:
+        v.fail("tables:caller-edit-of-returned-dict-changes-the-library", {"case": case, "lost": sorted(set(before) - set(after))[:3],
+                                                                          "gained": sorted(set(after) - set(before))[:3]})
+        # repair the shared table so that later cases of this process are judged on the real tables
+        live = pn.names()
+        live.clear()
+        live.update(before)
+    try:
+        ok = Port(f"eq {first}", platform=case["platform"], protocol=case["proto"], version=case["version"]).ports == [before[first]]
+    except ValueError:
+        ok = False
+    if not ok:
+        v.fail("tables:name-no-longer-accepted-after-caller-edit", {"case": case, "name": first})
+    return v
+
+
+def enum_tables(tier, shard, nshards):
+    idx = 0
+    for platform in PLATFORMS:
+        for version in VERSIONS:
+            for proto in PROTOS:
+                if idx % nshards == shard:
+                    yield {"platform": platform, "version": version, "proto": proto}
+                idx += 1
+
+
 SUBS = [
+    Sub("protocol-switch", judge_proto_switch, enum=enum_proto_switch, quick=1, thorough=1, exhaustive=True, exhaustive_quick=True),
+    Sub("returned-tables", judge_tables_are_copies, enum=enum_tables, quick=1, thorough=1, shards_quick=1, shards_thorough=1,
+        exhaustive=True, exhaustive_quick=True),
     Sub("ace-numbers", judge_ace_number, enum=enum_ace_numbers, quick=1, thorough=1, exhaustive=True, exhaustive_quick=True),
     Sub("switch", judge_switch, enum=enum_switch, quick=1, thorough=1, exhaustive=True, exhaustive_quick=True),
     Sub("names", judge_name, enum=enum_names, quick=1, thorough=1, exhaustive=True, exhaustive_quick=True),
